@@ -291,14 +291,30 @@ def run_wrapped(m, s):
                         A.mtm_cross_spectrum(tx[i], tx[j], (w[i], w[j]), sides=sd)
                     fxy[i, j] = r0
                     histories.scribble(r0)
+        flags = []
+        for i in range(M):
+            # L8: the same spectra object as tx AND ty with one weights object twice (cross branch) = the auto branch
+            c = np.asarray(A.mtm_cross_spectrum(tx[i], tx[i], (w[i], w[i]), sides=sd))
+            if not rel_close(c, fxy[i, i], 1e-9):
+                flags.append(('aliased-arguments', 'mtm_cross_spectrum(t, t, (w, w)) differs from mtm_cross_spectrum(t, t, w) for channel %d' % i))
+                break
         if not (np.array_equal(tx, keep[0]) and all(np.array_equal(a, b) for a, b in zip(w, keep[1]))):
             fxy[...] = np.nan          # the spectra / weights handed in were modified
         f = None
+        fxy = np.asarray(fxy)
+        if not (op == 'welch' and M == 1):
+            fxy = fxy.reshape(M, M, -1)
+        return {'f': f, key: fxy, 'flags': flags}
     elif via == 'SpectralAnalyzer.cpsd':
         f, fxy = build_analyzer(m, s).cpsd
     elif via == 'get_spectra_bi':
         rows = s.reshape(-1, n)
-        f, fxx, fyy, fxy01 = A.get_spectra_bi(rows[0], rows[1], method=meth)
+        x, y = rows[0], rows[1]
+        if m.get('alias') == 'same':
+            y = x                       # L8: one array object in both roles
+        elif m.get('alias') == 'reversed-view':
+            y = x[::-1]                 # L8: the second argument is a view of the first
+        f, fxx, fyy, fxy01 = A.get_spectra_bi(x, y, method=meth)
         L = np.asarray(fxy01).shape[-1]
         fxy = np.zeros((2, 2, L), dtype=complex)
         fxy[0, 0], fxy[1, 1], fxy[0, 1] = fxx, fyy, fxy01
@@ -323,6 +339,13 @@ def run_impl(m, s=None):
     A = tsa()
     if m.get('hist'):
         run_history_steps(m)
+        if HIST_FLAGS:
+            fl = list(HIST_FLAGS)
+            out = run_impl(dict(m, hist=None), s)
+            out['flags'] = out.get('flags', []) + fl
+            if 'Fs_eff' not in m:
+                pass
+            return out
     if op == 'skhist':
         return run_skhist(m, s)
     if op == 'tapers':
@@ -460,12 +483,69 @@ def build_analyzer_on(m, T, Fs):
 
 
 # ------------------------------------------------------------------ histories (L2 / L6)
+HIST_FLAGS = []
+
+
+def refused_call(kind, args):
+    """L7: a call the library refuses (documented ValueError / a type error); returns the objects handed in, copies of what
+    they held before, and whether the call raised"""
+    import copy
+    A, U = tsa(), utils()
+    if kind == 'dpss-interp-too-long':
+        n, NW, K = args
+        objs = []
+        call = lambda: U.dpss_windows(n, NW, K, interp_from=n + 5)
+    elif kind == 'get_spectra-unknown-method':
+        x = np.cos(np.arange(48.0)).reshape(2, 24)
+        d = {'this_method': 'fourier', 'Fs': 1.0, 'NFFT': 8}
+        objs = [x, d]
+        call = lambda: A.get_spectra(x, d)
+    elif kind == 'mtm-shape-mismatch':
+        n, = args
+        tx, ty, w = np.ones((3, n), complex), np.ones((3, n - 1), complex) * 2j, np.ones((3, 1))
+        objs = [tx, ty, w]
+        call = lambda: A.mtm_cross_spectrum(tx, ty, w)
+    elif kind == 'mt-NW-too-large':
+        n, = args
+        x = np.cos(np.arange(2.0 * n)).reshape(2, n)
+        objs = [x]
+        call = lambda: A.multi_taper_csd(x, NW=n)
+    elif kind == 'welch-overlap-ge-NFFT':
+        x = np.cos(np.arange(48.0)).reshape(2, 24)
+        d = {'this_method': 'welch', 'NFFT': 8, 'n_overlap': 8, 'Fs': 2.0}
+        objs = [x, d]
+        call = lambda: A.get_spectra(x, d)
+    elif kind == 'pcsd-Sk-list':
+        x = np.cos(np.arange(48.0)).reshape(2, 24)
+        objs = [x]
+        call = lambda: A.periodogram_csd(x, Sk=[1, 2, 3])
+    else:
+        raise ValueError(kind)
+    before = copy.deepcopy(objs)
+    raised = False
+    try:
+        call()
+    except Exception:
+        raised = True
+    same = all((np.array_equal(a, b) if isinstance(a, np.ndarray) else a == b) for a, b in zip(objs, before))
+    return raised, same
+
+
+REFUSALS = ['dpss-interp-too-long', 'get_spectra-unknown-method', 'mtm-shape-mismatch', 'mt-NW-too-large', 'welch-overlap-ge-NFFT', 'pcsd-Sk-list']
+
+
 def run_history_steps(m):
     """what happened in the process before the judged call (every step is part of the case: replayable)"""
     import histories
     U = utils()
+    del HIST_FLAGS[:]
     for st in m['hist']:
         try:
+            if st[0] == 'refused':
+                raised, same = refused_call(st[1], st[2])
+                if raised and not same:
+                    HIST_FLAGS.append(('refused-call-changed-arguments', 'the refused call %s raised but left its arguments changed' % st[1]))
+                continue
             if st[0] == 'dpss':
                 _, n, NW, K, frm, kind = st
                 r = U.dpss_windows(n, NW, K, interp_from=frm, interp_kind=kind) if frm else U.dpss_windows(n, NW, K)
@@ -535,7 +615,11 @@ def run_tapers(m):
     out = []
     for (n, nw4, K, frm, kind) in m['reqs']:
         NW = nw4 / 4.0
-        d, e = U.dpss_windows(n, NW, K, interp_from=frm, interp_kind=INTERP_KINDS[kind]) if frm else U.dpss_windows(n, NW, K)
+        try:
+            d, e = U.dpss_windows(n, NW, K, interp_from=frm, interp_kind=INTERP_KINDS[kind]) if frm else U.dpss_windows(n, NW, K)
+        except ValueError:
+            out.append(2)               # refused (interp_from > N)
+            continue
         d0, e0 = indep_tapers(n, NW, K)
         sg = np.sign((np.asarray(d) * d0).sum(axis=-1))
         sg[sg == 0] = 1
@@ -695,6 +779,8 @@ def tag_of(m):
         t += '/dtype-' + m['dtype']
     if m.get('normalize') is not None:
         t += '/normalize-%s' % m['normalize']
+    if m.get('alias'):
+        t += '/alias-' + m['alias']
     if m.get('method_none'):
         t += '/method-None'
     if m.get('hist') or m.get('shared') or m.get('twice') or m.get('ts_reuse'):
@@ -873,7 +959,7 @@ def judge(m, r=None, robust=True):
     if m['op'] == 'tapers':
         return [('lookup-ne-recompute', 'request %d of the history %s: dpss_windows returned %s tapers (independent DPSS implementation as reference)'
                  % (i, m['reqs'], 'something other than the exactly computed' if q[3] == 0 else 'the exactly computed set instead of interpolated'))
-                for i, (q, t) in enumerate(zip(m['reqs'], r['T'])) if t != (1 if q[3] else 0)][:1]
+                for i, (q, t) in enumerate(zip(m['reqs'], r['T'])) if t != (2 if q[3] > q[0] else 1 if q[3] else 0)][:1]
     s = get_data(m)
     n = s.shape[-1]
     rows = s.reshape(-1, n)
@@ -890,6 +976,8 @@ def judge(m, r=None, robust=True):
     nkw = {} if m.get('normalize') is None else {'normalize': m['normalize']}
     if robust and (m.get('hist') or m.get('shared') or m.get('twice') or m.get('dtype') or m.get('ts_reuse') or m.get('method_none')):
         robust = False
+    for sym, what in r.get('flags', []):
+        bad.append((sym, what))
     if r.get('handed_out_changed'):
         bad.append(('handed-out-result-changed', 'a result handed out earlier (%s) changed when the same call was made again' % r['handed_out_changed']))
     if op in ('periodogram', 'an_periodogram'):
@@ -1418,7 +1506,8 @@ def gen_history(rng, nr, tier, kind, i, nmax):
         frm = [n // 2, n // 3 + 3, n - 5][i % 3]
         kk = (i // 2) % len(INTERP_KINDS)
         a, b, c = [n, nw4, K, frm, kk], [n, nw4, K, 0, 0], [n, [12, 8, 10][i % 3] if nw4 != [12, 8, 10][i % 3] else 16, 4, 0, 0]
-        reqs = [[a, b], [b, a], [a, c, b], [c, a, b, b], [b, c, a, a, b], [a, a, b]][(i // 3) % 6]
+        bad_req = [n, nw4, K, n + 4, 0]          # refused: interp_from > N
+        reqs = [[a, b], [b, a], [a, c, b], [c, a, b, b], [b, c, a, a, b], [a, a, b], [bad_req, b, a], [a, bad_req, b]][(i // 3) % 8]
         return {'op': 'tapers', 'reqs': reqs, 'Fs': 1.0, 'sides': 'default', 'shape': [1], 're': [1.0], 'im': None}
     if kind == 'h_mt':
         op = HIST_OPS['h_mt'][i % len(HIST_OPS['h_mt'])]
@@ -1433,6 +1522,10 @@ def gen_history(rng, nr, tier, kind, i, nmax):
             steps.insert(0, ['dpss', n, float(NW) + 0.5, int(K) + 1, 0, 'linear'])
         if i % 4 == 2:
             steps.append(['tapered_spectra', [2, n], float(NW), int(K), bool(i % 8 == 2)])
+        if i % 2 == 0:
+            # L7: calls the library refuses, on the judged (n, NW, Kmax) or unrelated, before everything else
+            steps.insert(0, ['refused', 'dpss-interp-too-long', [n, float(NW), int(K)]])
+            steps.append(['refused', ['mt-NW-too-large', 'mtm-shape-mismatch'][(i // 2) % 2], [n]])
         m['hist'] = steps
         return m
     if kind == 'h_call':
@@ -1462,6 +1555,8 @@ def gen_history(rng, nr, tier, kind, i, nmax):
                 mv['adaptive'] = not m['adaptive']
         mv.pop('hist', None)
         m['hist'] = [['call', mv]]
+        if i % 3 == 1:
+            m['hist'].append(['refused', ['get_spectra-unknown-method', 'welch-overlap-ge-NFFT', 'pcsd-Sk-list'][(i // 3) % 3], []])
         m['twice'] = i % 2 == 0
         return m
     if kind == 'h_an':
@@ -1512,10 +1607,16 @@ def gen_all(rng, tier, seed, pid=PID, mix=None):
     _HIST_N[0] = 0
     for kind, cnt in (mix or MIX)[tier]:
         for i in range(cnt):
+            m = gen_meta(rng, nr, tier, kind.split('@')[0], i=off + i)
+            if m.get('via') == 'get_spectra_bi' and (off + i) % 3 != 0 and not m.get('hist'):
+                # L8: get_spectra_bi(x, x) / get_spectra_bi(x, x[::-1]): the expectation is the one for independent equal-valued arrays
+                x = get_data(m)
+                m['alias'] = ['same', 'reversed-view'][(off + i) % 2]
+                x[1] = x[0] if m['alias'] == 'same' else x[0][::-1]
+                put_data(m, x)
             if '@dtype' in kind:
-                out.append(with_dtype(gen_meta(rng, nr, tier, kind.split('@')[0], i=off + i), DTYPE_CYCLE[(off + i) % len(DTYPE_CYCLE)]))
-            else:
-                out.append(gen_meta(rng, nr, tier, kind, i=off + i))
+                m = with_dtype(m, DTYPE_CYCLE[(off + i) % len(DTYPE_CYCLE)])
+            out.append(m)
     return out
 
 
